@@ -22,6 +22,10 @@ pub struct SrcCase {
     /// the file starts with a UTF-8 byte-order mark
     #[serde(default)]
     pub bom: bool,
+    /// the file ends with one more comment line whose text holds a NUL character (valid UTF-8; git and many
+    /// tools would call the file binary, blockwatch has no such notion)
+    #[serde(default)]
+    pub nul: bool,
 }
 
 pub const ECHO_PATTERN: &str = r"[\s\S]*";
@@ -60,6 +64,14 @@ pub fn prepare(c: &SrcCase) -> Prepared {
             t.truncate(t.len() - 2);
         } else if t.ends_with('\n') {
             t.pop();
+        }
+    }
+    if c.nul && lang.footer.is_empty() && !(c.no_eol && !lang.markdown) {
+        let nl = if c.crlf { "\r\n" } else { "\n" };
+        if lang.markdown {
+            built.text.push_str(&format!("{nl}[//]: # (nul\0byte){nl}"));
+        } else if let Some(lc) = lang.line.first() {
+            built.text.push_str(&format!("{lc} nul\0byte{nl}"));
         }
     }
     if c.bom {
@@ -221,8 +233,8 @@ pub fn check_as(prop: &str, c: &SrcCase, probe: &Probe, nontrivial: &dyn Fn(&Pre
 }
 
 pub fn case_strategy() -> BoxedStrategy<SrcCase> {
-    (0..SUFFIXES.len(), builder::events_strategy(builder::simple_tag_strategy(), 28), proptest::bool::weighted(0.15), any::<bool>(), (proptest::bool::weighted(0.15), proptest::bool::weighted(0.08)))
-        .prop_map(|(suffix, events, crlf, echo, (no_eol, bom))| SrcCase { suffix, events, crlf, echo, no_eol, bom })
+    (0..SUFFIXES.len(), builder::events_strategy(builder::simple_tag_strategy(), 28), proptest::bool::weighted(0.15), any::<bool>(), (proptest::bool::weighted(0.15), proptest::bool::weighted(0.08), proptest::bool::weighted(0.1)))
+        .prop_map(|(suffix, events, crlf, echo, (no_eol, bom, nul))| SrcCase { suffix, events, crlf, echo, no_eol, bom, nul })
         .boxed()
 }
 
@@ -242,6 +254,7 @@ pub fn golden_cases() -> Vec<SrcCase> {
                 echo: true,
                 no_eol: false,
                 bom: false,
+                nul: false,
             });
         }
     }
